@@ -12,33 +12,87 @@ reach the operating system - `os.rename/replace/unlink/rmdir/mkdir`, `io.open`/`
 individual unlink/rmdir calls.  Only operations on paths below the given roots count (so that
 import machinery, linecache and friends never shift the indices).
 
-Variants of a fault:  "before" - the operation does not happen;  "after" (only meaningful for
-an `open` for writing) - the file is created/truncated, then the exception is raised, which is
-what a failing first `write` looks like.
+A fault has three independent parameters:
+
+* the *variant*:  "before" - the operation does not happen;  "after" (only meaningful for an
+  `open` for writing) - the file is created/truncated, then the exception is raised, which is
+  what a failing first `write` looks like;
+* the *policy*:  "once" - operation number `fault_at` raises, every later operation works (a
+  transient error);  "persist" - from operation number `fault_at` on, every operation of the same
+  kind on the same target raises again (a locked file, a read-only share: whatever the calling
+  code retries keeps failing);
+* the *exception type* (`EXC_TYPES`): a plain `OSError`, a `PermissionError`, a
+  `FileNotFoundError` - so that the `except` clauses and retry loops of the code under test
+  (`ziputil.copy_file`'s GH82 loop, `zipfile`'s file-mode retry, `shutil.move`'s copy fallback,
+  the `PermissionError` handler of `TemporaryDirectory.cleanup`, `_get_model_metadata`'s
+  `except FileNotFoundError`) see errors of the class they handle.
+
+`time.sleep` is a no-op while an injector is active (retry loops wait between attempts).
+Operations performed from a `__del__` (a `ZipFile` collected after its `close` raised) are
+neither counted nor faulted: when they run is up to the garbage collector.
 """
 import builtins
+import errno
 import io
 import os
+import sys
+import time
 import zipfile
 
 
 class InjectedFault(OSError):
-    """the exception raised at the fault point"""
+    """the exception raised at the fault point (every injected exception is one of these)"""
 
+
+class InjectedPermissionError(InjectedFault, PermissionError):
+    pass
+
+
+class InjectedFileNotFoundError(InjectedFault, FileNotFoundError):
+    pass
+
+
+EXC_TYPES = {
+    "os": (InjectedFault, errno.EIO),
+    "perm": (InjectedPermissionError, errno.EACCES),
+    "notfound": (InjectedFileNotFoundError, errno.ENOENT),
+}
+POLICIES = ("once", "persist")
 
 _WRITE_FLAGS = ("w", "a", "x", "+")
 
 
+def _real(p, dir_fd=None):
+    """the file an operation is about, as far as it can be told (the key of a persistent fault)"""
+    try:
+        s = os.fspath(p)
+        if isinstance(s, bytes):
+            s = os.fsdecode(s)
+        if dir_fd is not None:
+            try:
+                s = os.path.join(os.readlink("/proc/self/fd/%d" % dir_fd), s)
+            except OSError:
+                return "<fd>/" + s
+        return os.path.realpath(s)
+    except TypeError:
+        return repr(p)
+
+
 class Injector:
-    def __init__(self, roots, fault_at=None, variant="before", mode="save", label=None, reads=None):
+    def __init__(self, roots, fault_at=None, variant="before", mode="save", label=None, reads=None,
+                 policy="once", exc="os"):
         self.roots = [os.path.realpath(str(r)) for r in roots]
         self.fault_at = fault_at
         self.variant = variant
+        self.policy = policy
+        self.exc = exc
         self.mode = mode              # "save": the picklers' dump is wrapped;  "load": their load
         self.reads = reads if reads is not None else (mode == "load")   # count opens for reading
         self.label = label or (lambda p: p)
         self.trace = []               # (opname, labelled args)
         self.fired = None             # the trace entry at which the fault was raised
+        self.fired_key = None         # (opname, target) of the fault: what a persistent fault repeats on
+        self.nfired = 0               # how many operations were made to fail
         self._saved = []
         self._depth = 0
 
@@ -50,16 +104,38 @@ class Injector:
             return False
         return any(s == r or s.startswith(r + os.sep) for r in self.roots)
 
-    def _tick(self, name, args, after=None):
-        """count one primitive; raise if it is the chosen one"""
+    @staticmethod
+    def _from_del():
+        f = sys._getframe(2)
+        for _ in range(4):
+            if f is None:
+                return False
+            if f.f_code.co_name == "__del__":
+                return True
+            f = f.f_back
+        return False
+
+    def _raise(self, idx, name, after, on_fault=None):
+        self.nfired += 1
+        if on_fault is not None:
+            on_fault()
+        if after is not None and self.variant == "after":
+            after()
+        cls, eno = EXC_TYPES[self.exc]
+        raise cls(eno, "injected fault at op %d %s" % (idx, name))
+
+    def _tick(self, name, args, after=None, key=None, on_fault=None):
+        """count one primitive; raise if it is the chosen one (or repeats a persistent fault)"""
         idx = len(self.trace)
         entry = (name,) + tuple(self.label(a) for a in args)
         self.trace.append(entry)
+        k = key if isinstance(key, tuple) and key and key[0] == "open" else (name, key)
         if self.fault_at is not None and idx == self.fault_at and self.fired is None:
             self.fired = entry
-            if after is not None and self.variant == "after":
-                after()
-            raise InjectedFault("injected fault at op %d %s" % (idx, name))
+            self.fired_key = k
+            self._raise(idx, name, after, on_fault)
+        if self.fired is not None and self.policy == "persist" and k == self.fired_key:
+            self._raise(idx, name, after, on_fault)
 
     def _patch(self, obj, attr, wrapper):
         orig = getattr(obj, attr)
@@ -70,9 +146,12 @@ class Injector:
     def _w_path1(self, name):
         def mk(orig):
             def f(path, *a, **kw):
-                if self._depth == 0 and (kw.get("dir_fd") is not None or self._inside(path)):
+                if self._depth == 0 and (kw.get("dir_fd") is not None or self._inside(path)) \
+                        and not self._from_del() and not (name == "mkdir" and os.path.isdir(path)):
+                    # (mkdir of a directory that exists - `mkdir(parents=True, exist_ok=True)` before
+                    # every file - fails by itself and is ignored by pathlib: not an operation)
                     shown = path if kw.get("dir_fd") is None else "<fd>/" + os.fspath(path)
-                    self._tick(name, (shown,))
+                    self._tick(name, (shown,), key=_real(path, kw.get("dir_fd")))
                 return orig(path, *a, **kw)
             return f
         return mk
@@ -80,29 +159,31 @@ class Injector:
     def _w_path2(self, name):
         def mk(orig):
             def f(src, dst, *a, **kw):
-                if self._depth == 0 and (self._inside(src) or self._inside(dst)):
-                    self._tick(name, (src, dst))
+                if self._depth == 0 and (self._inside(src) or self._inside(dst)) and not self._from_del():
+                    self._tick(name, (src, dst), key=(_real(src), _real(dst)))
                 return orig(src, dst, *a, **kw)
             return f
         return mk
 
     def _w_open(self, orig):
         def f(file, mode="r", *a, **kw):
-            if self._depth == 0 and not isinstance(file, int):
+            if self._depth == 0 and not isinstance(file, int) and not self._from_del():
                 writing = any(c in mode for c in _WRITE_FLAGS)
                 if (writing or self.reads) and self._inside(file):
                     def after():
-                        if writing:
+                        if writing and not os.path.isdir(file):     # (a directory: NamedTemporaryFile's opener)
                             orig(file, mode, *a, **kw).close()
-                    self._tick("open:" + ("w" if writing else "r"), (file,), after=after)
+                    # "w+": opened for update - what zipfile.ZipFile(file, "w" | "a") does
+                    self._tick("open:" + (("w+" if "+" in mode else "w") if writing else "r"), (file,),
+                               after=after, key=("open", writing, _real(file)))
             return orig(file, mode, *a, **kw)
         return f
 
     def _w_method(self, name, show=lambda self_, a: ()):
         def mk(orig):
             def f(obj, *a, **kw):
-                if self._depth == 0:
-                    self._tick(name, show(obj, a))
+                if self._depth == 0 and not self._from_del():
+                    self._tick(name, show(obj, a), key=show(obj, a))
                 self._depth += 1
                 try:
                     return orig(obj, *a, **kw)
@@ -120,6 +201,7 @@ class Injector:
             self._patch(os, nm, self._w_path2(nm))
         self._patch(io, "open", self._w_open)
         self._patch(builtins, "open", self._w_open)
+        self._patch(time, "sleep", lambda orig: (lambda *a, **kw: None))
 
         def zshow(z, a):
             return (("zip:" + str(z.filename)),)
@@ -140,8 +222,15 @@ class Injector:
     def _w_zipclose(self, orig):
         def f(z, *a, **kw):
             # only a ZipFile with something to flush performs file-system work on close
-            if self._depth == 0 and z.fp is not None and z.mode in ("w", "x", "a") and self._inside(z.filename):
-                self._tick("zip.close", ("zip:" + str(z.filename),))
+            if self._depth == 0 and z.fp is not None and z.mode in ("w", "x", "a") \
+                    and self._inside(z.filename) and not self._from_del():
+                def release():
+                    # what a close() that fails leaves: nothing of the central directory written,
+                    # the file handle released (ZipFile.close's own `finally`), the object closed
+                    fp, z.fp = z.fp, None
+                    z._fpclose(fp)
+                self._tick("zip.close", ("zip:" + str(z.filename),), key=("zip:" + str(z.filename),),
+                           on_fault=release)
             self._depth += 1
             try:
                 return orig(z, *a, **kw)
